@@ -447,3 +447,39 @@ Proof.
   cbn [toks tcons app length].
   repeat (f_equal; try lia).
 Qed.
+
+(* ---------------------------------------------------------------- the literal scanner inside quotes.
+   Between quotes (attribute values), outside any `{}`: everything up to the closing quote of the same
+   kind is literal -- braces, brackets, operators, `*`, white space, the other quote -- with escapes
+   resolved. *)
+Lemma lit_quoted_aux : forall n T, (length T <= n)%nat -> forall q prev attr e rest,
+  is_quote q = true -> qpayload q T = true ->
+  lit (Some q) attr 0 e prev false (T ++ q :: rest) = (unescape T, length T, e).
+Proof.
+  induction n as [|n IH]; intros T Hlen q prev attr e rest Hqq Hq.
+  - destruct T; [|cbn [length] in Hlen; lia].
+    cbn [app unescape length]. rewrite lit_cons. cbv beta zeta.
+    assert (Hb : (q =? c_bslash) = false).
+    { unfold is_quote in Hqq. apply orb_true_iff in Hqq. destruct Hqq as [H|H]; apply N.eqb_eq in H; subst q; reflexivity. }
+    rewrite Hb. cbn [andb]. rewrite !andb_false_r. rewrite N.eqb_refl. cbn [orb]. reflexivity.
+  - destruct T as [|c r].
+    { apply (IH [] (Nat.le_0_l _)); assumption. }
+    cbn [length] in Hlen. cbn [qpayload] in Hq. cbn [app].
+    rewrite lit_cons. cbv beta zeta.
+    destruct (c =? c_bslash) eqn:Ebs.
+    + destruct r as [|c2 r']; [discriminate|].
+      cbn [app]. rewrite lit_cons. cbv beta zeta. cbn [length] in Hlen.
+      rewrite (IH r' ltac:(lia) q (Some c2) attr e rest Hqq Hq).
+      cbn [unescape]. rewrite Ebs. reflexivity.
+    + destruct ((c =? c_dollar) || (c =? q)) eqn:Edq; [discriminate|].
+      apply orb_false_iff in Edq. destruct Edq as [Ed Eq].
+      cbn [andb]. rewrite !andb_false_r. rewrite Eq, Ed, no_operator_in_quote. cbn [orb].
+      replace (truthy 0) with false by reflexivity.
+      rewrite (IH r ltac:(lia) q (Some c) attr e rest Hqq Hq).
+      cbn [unescape]. rewrite Ebs. reflexivity.
+Qed.
+
+Lemma lit_quoted T q prev attr e rest :
+  is_quote q = true -> qpayload q T = true ->
+  lit (Some q) attr 0 e prev false (T ++ q :: rest) = (unescape T, length T, e).
+Proof. apply (lit_quoted_aux (length T)). lia. Qed.
